@@ -166,9 +166,23 @@ if not ok3: return "dumps-loads-differs"
                    tree=tree.expr, bounds=bounds_text(tree, 2, data="concrete records incl. nan/inf by selector k in 0..4 (C encoder: realised)"))
 
 
+VECTOR_BAGS = [
+    ("Bag:N2", 'H.Bag(lambda d: (1.0 if d[0] > 0.5 else NAN, 2.5 if d[0] > 1.5 else NAN), "N2")'),
+    ("Bag:N3", 'H.Bag(lambda d: (d[0] > 0.5 and 1.0 or NAN, 0.0, INF if d[0] > 1.0 else -INF), "N3")'),
+    ("Bin>Bag:N2", 'H.Bin(2, 0.0, 2.0, qx, H.Bag(lambda d: (1.0 if d[0] > 0.5 else NAN, 2.5), "N2"))'),
+    ("Bag:S", 'H.Bag(lambda d: "a" if d[0] > 0.5 else "", "S")'),
+]
+
+
 def harnesses(tier):
     out = []
     units = cat.unit()
+    for n, e in VECTOR_BAGS:   # value ranges the catalogue's scalar Bag does not reach (vector keys with NaN/inf components)
+        t = cat.Tree(n, e)
+        out.append(empty(t))
+        out.append(filled(t, special=False))
+        out.append(merged(t))
+        out.append(encoder(t))
     for t in units:
         for tt in (t, named_variant(t)):
             out.append(empty(tt))
